@@ -3,6 +3,7 @@
 From Coq Require Import Strings.Byte.
 From Coq Require Import List NArith.
 From Goit Require Import Bytes Sha1 Obj Tree BytesFacts ObjFacts TreeFacts.
+From Goit Require Import Index World Repo Inv SnapshotFacts.
 Import ListNotations.
 Local Open Scope N_scope.
 
@@ -46,6 +47,47 @@ Qed.
 Example C05_nonvacuous : Forall valid_entry ex_entries.
 Proof. exact ex_entries_valid. Qed.
 
+
+(* ---------- Part 2: every commit in every history ---------- *)
+(* [snapshot st cid] is literally what `reset --mixed` computes: load the
+   commit, load its tree, walk it with Goit's own reader, flatten. *)
+
+(* a successful commit's snapshot is the staging area at that moment *)
+Theorem C05_commit_snapshot_is_staging_area : forall e msg w w' out tr,
+  GoodW w -> step (ACmd e (CCommit msg)) w = (w', OOk out, tr) ->
+  w_coll w' = false -> SmallStore (w_objs w') ->
+  exists cid, am_get (w_refs w') (w_head w') = Some cid /\ snapshot (w_objs w') cid = Some (idx_of w) /\
+              idx_of w' = idx_of w.
+Proof. exact commit_snapshot_step. Qed.
+
+(* `reset --mixed|--hard` sets the staging area to exactly that reading *)
+Theorem C05_reset_reads_the_snapshot : forall e soft mixed hard args w w' out tr,
+  step (ACmd e (CReset soft mixed hard args)) w = (w', OOk out, tr) -> soft = false ->
+  exists a tid es, args = [a] /\ reset_target w a = Some tid /\ snapshot (w_objs w) tid = Some es /\ idx_of w' = es.
+Proof. exact reset_reads_back. Qed.
+
+(* hence: commit at w0, then ANY history h, then a reset (mixed or hard) that
+   resolves to that commit: the staging area is again exactly what was staged
+   when the commit was made *)
+Theorem C05_reset_restores_what_was_staged : forall e0 msg w0 w1 out0 tr0 h e soft mixed hard a w' out tr cid,
+  GoodW w0 -> step (ACmd e0 (CCommit msg)) w0 = (w1, OOk out0, tr0) ->
+  am_get (w_refs w1) (w_head w1) = Some cid ->
+  w_coll (run h w1) = false -> SmallStore (w_objs (run h w1)) ->
+  step (ACmd e (CReset soft mixed hard [a])) (run h w1) = (w', OOk out, tr) -> soft = false ->
+  reset_target (run h w1) a = Some cid -> idx_of w' = idx_of w0.
+Proof. exact reset_restores_commit. Qed.
+
+(* the invariant GoodW (valid work tree paths, canonical staging area, every
+   stored commit's tree reads back canonically) holds on every reachable world *)
+Theorem C05_invariants_on_every_history : forall h,
+  Forall action_ok h -> w_coll (run h w_empty) = false -> SmallStore (w_objs (run h w_empty)) ->
+  WtValid (run h w_empty) /\ IndexGood (run h w_empty) /\ SnapshotsGood (w_objs (run h w_empty)).
+Proof. exact good_run. Qed.
+
 Print Assumptions C05_write_tree_total.
 Print Assumptions C05_walk_write_tree.
 Print Assumptions C05_spec_flatten_write_tree.
+Print Assumptions C05_commit_snapshot_is_staging_area.
+Print Assumptions C05_reset_reads_the_snapshot.
+Print Assumptions C05_reset_restores_what_was_staged.
+Print Assumptions C05_invariants_on_every_history.
